@@ -168,6 +168,47 @@ pub fn run() -> i32 {
     }
     st.sample(json!({"what": "PwHash::derive_keypair", "passwords": 4, "algorithms": ["argon2i (config via from_string().into_parts())", "argon2id"], "cost": "t=3, m=8 KiB"}));
     ctx.absorb("password-derived", st);
+    {
+        let mut t: Vec<crate::purity::Entry> = vec![];
+        let s1: [u8; 32] = karr(seed ^ 0x13, 2);
+        let s2: [u8; 32] = karr(seed ^ 0x13, 3);
+        for (nm, s) in [("box_seed_keypair(s1)", s1), ("box_seed_keypair(s2)", s2)] {
+            t.push((nm, Box::new(move || {
+                let (a, b) = crypto_box_seed_keypair(&s);
+                [a, b].concat()
+            })));
+        }
+        t.push(("box_seed_keypair(40-byte seed)", Box::new(move || {
+            let (a, b) = crypto_box_seed_keypair(&[s1.as_slice(), &s2[..8]].concat());
+            [a, b].concat()
+        })));
+        for (nm, s) in [("kx_seed_keypair(s1)", s1), ("kx_seed_keypair(s2)", s2)] {
+            t.push((nm, Box::new(move || {
+                let (a, b) = crypto_kx_seed_keypair(&s).unwrap();
+                [a, b].concat()
+            })));
+        }
+        for (nm, s) in [("sign_seed_keypair(s1)", s1), ("sign_seed_keypair(s2)", s2), ("sign_seed_keypair(zero)", [0u8; 32])] {
+            t.push((nm, Box::new(move || {
+                let (a, b) = crypto_sign_seed_keypair(&s);
+                [&a[..], &b[..]].concat()
+            })));
+        }
+        for (nm, s) in [("ed_to_x(s1)", s1), ("ed_to_x(s2)", s2)] {
+            t.push((nm, Box::new(move || {
+                let (pk, sk) = sodium::sign_seed_keypair(&s);
+                let (mut xp, mut xs) = ([0u8; 32], [0u8; 32]);
+                let _ = crypto_sign_ed25519_pk_to_curve25519(&mut xp, &pk);
+                crypto_sign_ed25519_sk_to_curve25519(&mut xs, &sk);
+                [xp, xs].concat()
+            })));
+        }
+        t.push(("KeyPair::from_secret_key(s1)", Box::new(move || {
+            let k: KeyPair<SB<32>, SB<32>> = KeyPair::from_secret_key(SB::<32>::from(&s1));
+            k.public_key.to_vec()
+        })));
+        crate::purity::triples(&mut ctx, "C13", "C13.keys", t);
+    }
     ctx.require_outcome("box-seed==libsodium");
     ctx.require_outcome("ed-to-x==libsodium");
     ctx.finish()
